@@ -36,4 +36,12 @@ PROPS = {
         {"id": "C18", "quick_n": 30000, "thorough_n": 5000000, "quick_s": 60, "thorough_s": 900,
          "rule": "valid encoded stream (9 kinds) x read partition (whole, 1-byte, fixed, header-straddling, random cuts, data+EOF); decode whole vs partitioned; non-trivial = partition delivered the stream in >=3 reads; distinct by plan hash"},
     ]},
+    "C11": {"level": "exploration", "profiles": [
+        {"id": "C11", "quick_n": 3000, "thorough_n": 400000, "quick_s": 60, "thorough_s": 900,
+         "rule": "commit DAG (<=30 nodes) x timestamp regime; all ordered pairs for IsAncestorOf, full walk from every node, 40 sampled 2-4-tuples for SeekCommonAncestor; non-trivial = >=1 merge commit and timestamps inconsistent with topology; distinct by plan hash"},
+    ]},
+    "C15": {"level": "exploration", "profiles": [
+        {"id": "C15", "quick_n": 1500, "thorough_n": 150000, "quick_s": 60, "thorough_s": 900,
+         "rule": "op sequences (<=40) over a hostile name alphabet on the real SQL ref store (real SQLite file, reopen, statement-level SQL faults); every return value and a full dump compared with a map+logs model after every step; non-trivial = >=8 ops incl. >=1 prefix listing or bulk op and >=1 rename/copy; distinct by plan hash"},
+    ]},
 }
